@@ -8,6 +8,7 @@ import (
 	"go/token"
 	"go/types"
 	"math/big"
+	"regexp"
 	"strings"
 )
 
@@ -137,6 +138,7 @@ var (
 	tBool   = types.Typ[types.Bool]
 	tString = types.Typ[types.String]
 	tByte   = types.Typ[types.Uint8]
+	tRef    = types.Typ[types.UnsafePointer]
 )
 
 // ---------------------------------------------------------------------------
@@ -472,6 +474,8 @@ func constToBig(c constant.Value) (*big.Int, bool) {
 
 func typeKey(t types.Type) string {
 	s := types.TypeString(t, func(p *types.Package) string { return shortPkg(p.Path()) })
+	s = byteRe.ReplaceAllString(s, "uint8")
+	s = runeRe.ReplaceAllString(s, "int32")
 	return s
 }
 
@@ -484,5 +488,8 @@ func shortPkg(p string) string {
 	p = strings.TrimPrefix(p, "github.com/")
 	return p
 }
+
+var byteRe = regexp.MustCompile(`\bbyte\b`)
+var runeRe = regexp.MustCompile(`\brune\b`)
 
 const zapxPath = "github.com/blevesearch/zapx/v16"
